@@ -37,6 +37,7 @@ SCHEMAS = {
     "Beta": {"type": "object", "properties": {"back": _ref("Alpha"), "n": {"type": "integer"}}},
     "Gamma": {"allOf": [_ref("Delta"), {"type": "object", "properties": {"g": {"type": "string"}, "u": {"type": "array", "items": _ref("Alpha")}, "v": _ref("Beta")}}]},
     "Delta": {"type": "object", "properties": {"d": {"type": "string", "format": "date"}}},
+    "Registry": {"type": "object", "additionalProperties": {"type": "object", "properties": {"ra": _ref("Alpha"), "rb": _ref("Beta"), "rd": _ref("Delta"), "rg": _ref("Gamma")}}},
 }
 PATHS = {
     "/one": {"get": {"operationId": "getOne", "responses": {"200": {"description": "ok", "content": {"application/json": {"schema": _ref("Alpha")}}}, "404": {"description": "no", "content": {"application/json": {"schema": _ref("Beta")}}}}}},
@@ -105,7 +106,8 @@ def _render(doc, set_perm=None):
     return out, errs
 
 
-CANON, CANON_ERRS = _render(_doc(sorted(SCHEMAS), sorted(PATHS)))
+# the canonical rendering uses the identity permutation for every set, so it does not depend on this process's hash seed
+CANON, CANON_ERRS = _render(_doc(sorted(SCHEMAS), sorted(PATHS)), set_perm=0)
 
 
 def schema_declaration_order(sp: int) -> bool:
@@ -113,16 +115,16 @@ def schema_declaration_order(sp: int) -> bool:
     pre: 0 <= sp < 6
     post: _
     """
-    out, errs = _render(_doc(_perm(sorted(SCHEMAS), sp * 4 + 1), sorted(PATHS)))
+    out, errs = _render(_doc(_perm(sorted(SCHEMAS), sp * 19 + 7), sorted(PATHS)), set_perm=0)
     return out == CANON and errs == CANON_ERRS == []
 
 
 def schema_declaration_order_thorough(sp: int) -> bool:
     """
-    pre: 0 <= sp < 24
+    pre: 0 <= sp < 120
     post: _
     """
-    out, errs = _render(_doc(_perm(sorted(SCHEMAS), sp), sorted(PATHS)))
+    out, errs = _render(_doc(_perm(sorted(SCHEMAS), sp), sorted(PATHS)), set_perm=0)
     return out == CANON and errs == CANON_ERRS == []
 
 
@@ -131,7 +133,7 @@ def path_declaration_order(pp: int) -> bool:
     pre: 0 <= pp < 6
     post: _
     """
-    out, errs = _render(_doc(sorted(SCHEMAS), _perm(sorted(PATHS), pp)))
+    out, errs = _render(_doc(sorted(SCHEMAS), _perm(sorted(PATHS), pp)), set_perm=0)
     return out == CANON and errs == CANON_ERRS == []
 
 
